@@ -145,3 +145,62 @@ func VerifC12_RangeCompaction() {
 	}
 	vsym.Reach("done")
 }
+
+// VerifC12_RepeatedCompactions: several compaction cycles in one engine lifetime. Each round flushes two level-0
+// tables - versions of one key, or of two keys, with puts and deletes - and triggers a compaction (the level-0 trigger
+// is 2), so that later cycles meet the outputs of earlier ones (same level, file numbers that restart with every
+// compaction) and whatever the compaction code remembers from cycle to cycle; optionally the engine is restarted on
+// the tables alone after one of the rounds. After every round, and at the end after the logs are retired and the
+// database is reopened, every key reads as its latest write says.
+func VerifC12_RepeatedCompactions() {
+	h := &hEnv{maxMem: 2}
+	h.hKeys(2)
+	h.hOpen(true, false)
+	R := 3
+	if vsym.Thorough() {
+		R = 4
+	}
+	restartAfter := vsym.IntRange("restartAfter", 0, R-1) // 0 = never
+	write := func(ki int, del bool) {
+		if del {
+			vsym.Assert(h.e.Delete(h.K[ki]) == nil, "Delete failed")
+			h.present[ki] = false
+		} else {
+			v := vsym.Bytes("v", 1)
+			vsym.Assert(h.e.Put(h.K[ki], v) == nil, "Put failed")
+			h.present[ki], h.val[ki] = true, v
+		}
+		vsym.Assert(h.e.FlushImMemTables() == nil, "Flush failed")
+	}
+	for r := 1; r <= R; r++ {
+		shape := vsym.IntRange("shape", 0, 2)
+		del := vsym.IntRange("del", 0, 1) == 1
+		switch shape {
+		case 0: // both keys
+			write(0, del)
+			write(1, false)
+		case 1: // two versions of the first key only
+			write(0, false)
+			write(0, del)
+		case 2: // two versions of the second key only
+			write(1, false)
+			write(1, del)
+		}
+		vsym.Assert(h.e.TriggerCompaction() == nil, "TriggerCompaction failed")
+		h.hProbeKey(0)
+		h.hProbeKey(1)
+		if r == restartAfter {
+			vsym.Assert(h.e.Close() == nil, "Close failed")
+			h.retireLogs()
+			h.hOpen(false, false)
+			h.hProbeKey(0)
+			h.hProbeKey(1)
+		}
+	}
+	vsym.Assert(h.e.Close() == nil, "Close failed")
+	h.retireLogs()
+	h.hOpen(false, false)
+	h.hProbeKey(0)
+	h.hProbeKey(1)
+	vsym.Reach("done")
+}
